@@ -6,10 +6,13 @@ pub mod c02;
 pub mod c03;
 pub mod c05;
 pub mod c06;
+pub mod c07;
+pub mod c11;
 pub mod c12;
 pub mod c13;
 pub mod c14;
 pub mod c15;
+pub mod c16;
 pub mod c20;
 
 pub fn dispatch(r: &mut Runner) -> bool {
@@ -19,10 +22,13 @@ pub fn dispatch(r: &mut Runner) -> bool {
         "C03" => c03::run(r),
         "C05" => c05::run(r),
         "C06" => c06::run(r),
+        "C07" => c07::run(r),
+        "C11" => c11::run(r),
         "C12" => c12::run(r),
         "C13" => c13::run(r),
         "C14" => c14::run(r),
         "C15" => c15::run(r),
+        "C16" => c16::run(r),
         "C20" => c20::run(r),
         _ => return false,
     }
